@@ -54,8 +54,9 @@ ASSUMPTIONS = [
 
 CONTAINERS = ("ndarray", "list", "tuple", "view", "readonly")
 # numeric fields of two calls on the same points (other container / other order) must agree to this relative tolerance
-# (measured on the pinned tree over the thorough alphabet: worst 0.0 for containers, worst 0.0 for permutations -- the
-#  tolerance only leaves room for SIMD-vs-scalar last-bit differences on strided input; a swapped record is O(1))
+# (measured on the pinned tree over the thorough alphabet, 32860 calls: worst 0.0 for containers, worst 0.0 for
+#  permutations; the only value above it is ie_Solver's 0.55, a finding -- the tolerance only leaves room for
+#  SIMD-vs-scalar last-bit differences on strided input; a swapped or sorted record is O(1))
 TOL_SAME = 1e-12
 PERM7 = (3, 0, 6, 1, 5, 2, 4)
 
@@ -234,6 +235,9 @@ def short(key):
 def run_task(task):
     if task["kind"] == "catalogue":
         return run_catalogue()
+    if not cat.exists(cat.TABLE[task["cls"]]):
+        return {"evals": 0, "nontrivial": [], "violations": [], "states": 0, "transitions": 0, "sample": None,
+                "counters": {"tasks_skipped_class_absent_from_tree": 1}, "digest": Digest().add("absent").hex()}
     if task["kind"] == "ctor":
         return run_ctor(task)
     return run_words(task)
@@ -437,13 +441,15 @@ def run_words(task):
                             asc_ref = sol
                     elif otag in ref_by_order:
                         m, fn = same_fields(sol, ref_by_order[otag])
-                        res["worst_container"] = max(res.get("worst_container", 0.0), m)
+                        if m <= TOL_SAME:
+                            res["worst_container"] = max(res.get("worst_container", 0.0), m)
                         if m > TOL_SAME:
                             cx.viol("containers:equivalent", {"container": cont}, value=m, tol=TOL_SAME, detail={"field": fn, "first": where})
                     # ---- the records follow the order given (not for the documented grid-dependent three)
                     if cont == "ndarray" and asc_ref is not None and sol is not asc_ref and not e["grid"]:
                         m, fn = same_fields(sol, asc_ref[idx])
-                        res["worst_order"] = max(res.get("worst_order", 0.0), m)
+                        if m <= TOL_SAME:
+                            res["worst_order"] = max(res.get("worst_order", 0.0), m)
                         if m > TOL_SAME:
                             cx.viol("order:covariant", {"order": "dup" if otag == "dup" else "perm"}, value=m, tol=TOL_SAME,
                                     detail={"field": fn, "first": where})
@@ -511,5 +517,5 @@ def run_words(task):
 def postprocess(agg, tier):
     rs = [r for r in agg["results"] if r]
     return {"classes_in_table": len(cat.TABLE),
-            "worst_container_mismatch": max([r.get("worst_container", 0.0) for r in rs] or [0.0]),
-            "worst_order_mismatch": max([r.get("worst_order", 0.0) for r in rs] or [0.0])}
+            "worst_container_mismatch_within_tolerance": max([r.get("worst_container", 0.0) for r in rs] or [0.0]),
+            "worst_order_mismatch_within_tolerance": max([r.get("worst_order", 0.0) for r in rs] or [0.0])}
